@@ -308,6 +308,17 @@ func verifJ2KCfgs() []verifJ2KCfg {
 			p.UsePCRDOpt = true
 		}},
 		{"precinct32", func(p *jpeg2000.EncodeParams) { p.PrecinctWidth = 32; p.PrecinctHeight = 32; p.NumLevels = 3 }},
+		// added after seeded change C16-B: the multi-tile writers with several layers / a rate target
+		// (global rate allocation) are a separate code path with their own SOT/Psot computation
+		{"tiled32_layers2", func(p *jpeg2000.EncodeParams) { p.TileWidth, p.TileHeight = 32, 32; p.NumLevels = 2; p.NumLayers = 2 }},
+		{"tiled32_layers3_ratio4", func(p *jpeg2000.EncodeParams) {
+			p.TileWidth, p.TileHeight = 32, 32
+			p.NumLevels = 2
+			p.NumLayers = 3
+			p.TargetRatio = 4
+			p.UsePCRDOpt = true
+		}},
+		{"tiled8_layers2_64tiles", func(p *jpeg2000.EncodeParams) { p.TileWidth, p.TileHeight = 8, 8; p.NumLevels = 1; p.NumLayers = 2 }},
 		{"signed", func(p *jpeg2000.EncodeParams) { p.IsSigned = true }},
 	}
 	for po := 0; po <= 4; po++ {
